@@ -66,6 +66,10 @@ P = {
   "Four exhaustive-within-bound parts: round trip (value and string) of every ModuleInfo the analyser produces over the C08 program space; round trip of ModuleInfo values enumerated directly over per-field alphabets (deviation-bounded from the default value); all 56 moduleGraph1 leading-comment shapes upgraded and compared with analysing the equivalent source; registry packages (5 source files, generated import lists, 3 root import forms, 2 entrypoints) published with and without an embedded module graph and built with cache-probe hit / miss, graphs compared.",
   "Premise of the statement: the embedded information is produced by this analyser from those sources (the fixture does exactly that).",
   "DESIGN.md §4 C13", TECH + "; enumeration of values / programs / packages, round-trip and differential oracles"),
+ "C07": (True,
+  "Registries of 2 packages x 2 versions (5 exports shapes, per-file import lists over relative / jsr: / npm: / https-into-registry / self / unknown-export forms) and importing programs of <= 3 imports are built with the real builder inside the deviation bound; redirects, mappings, exports used, package dependency edges and unknown-export errors are compared with a reference recomputed from the fixture; package URL <-> name@version is round-tripped for every file and probed with near-miss URLs.",
+  "Every requirement of the alphabet matches exactly one published version (selection order is C06's subject). Default JsrUrlProvider only.",
+  "DESIGN.md §4 C07", TECH + "; deviation-bounded enumeration of registries x importing programs against reference bookkeeping"),
 }
 
 ALL = ["C%02d" % i for i in range(1, 21)]
